@@ -73,6 +73,38 @@ ZOO.update({
     "first-through-two": ("S", [("S", ("A", "B", "c")), ("S", ("A", "B", "d")), ("A", ("a",)), ("A", ()), ("B", ("A",))]),
 })
 
+def _templated():
+    """Grammars S -> ctx A end | ...; A -> B TAIL; with TAIL nullable directly / through one or two unit steps, reached with one or two
+    different lookaheads -- the shapes in which lookahead must be threaded through a (possibly indirectly) vanishing tail."""
+    out = {}
+    tails = {
+        "none": [("C", ("c",))],
+        "direct": [("C", ("c",)), ("C", ())],
+        "indirect1": [("C", ("D",)), ("D", ("d",)), ("D", ())],
+        "indirect2": [("C", ("D",)), ("D", ("E",)), ("E", ("e",)), ("E", ())],
+        "indirect-mixed": [("C", ("D", "E")), ("D", ()), ("E", ("F",)), ("F", ()), ("F", ("f",))],
+    }
+    ctxs = {
+        "one": [("S", ("x", "A", "y"))],
+        "two": [("S", ("x", "A", "y")), ("S", ("z", "A", "w"))],
+        "two-same-end": [("S", ("x", "A", "y")), ("S", ("z", "A", "y"))],
+        "nested": [("S", ("x", "A", "y")), ("S", ("z", "S", "w"))],
+    }
+    for tn, tp in tails.items():
+        for cn, cp in ctxs.items():
+            for a_form, ap in (("BC", [("A", ("B", "C"))]), ("CB", [("A", ("C", "B"))]), ("BCC", [("A", ("B", "C", "C"))])):
+                out["tmpl:%s/%s/%s" % (cn, tn, a_form)] = ("S", cp + ap + [("B", ("b",))] + tp)
+    return out
+
+
+ZOO.update(_templated())
+# cyclic start symbols under several spellings: the order in which the accept item and a reduce item are met
+# depends on set iteration order, i.e. on the hashes of the symbol names
+for _i, (_s, _a) in enumerate((("S", "A"), ("Start", "Aux"), ("q", "r"), ("zz", "yy"), ("N0", "N1"), ("expr", "term"))):
+    ZOO["cyclic-self/%d" % _i] = (_s, [(_s, (_s,)), (_s, ("t",))])
+    ZOO["cyclic-pair/%d" % _i] = (_s, [(_s, (_a,)), (_a, (_s,)), (_a, ("t",))])
+    ZOO["cyclic-nullable/%d" % _i] = (_s, [(_s, (_s, _a)), (_s, ("t",)), (_a, ())])
+
 # second family: three nonterminals, one terminal (strings are a^n, so it is cheap)
 SYMS_B = ["S", "A", "B", "a"]
 RHS_B = [()] + [(x,) for x in SYMS_B] + [(x, y) for x in SYMS_B for y in SYMS_B]
@@ -156,7 +188,7 @@ def gen_cases(tier):
         for lo in range(0, total, 1000):
             yield {"kind": "familyB", "size": size, "lo": lo, "hi": min(total, lo + 1000), "L": 5}
     for name in sorted(ZOO):
-        yield {"kind": "zoo", "name": name, "L": b["zoo_string_len"]}
+        yield {"kind": "zoo", "name": name, "L": b["zoo_string_len"] if not name.startswith("tmpl:") else 6}
     for which in ("module", "expression"):
         n = _G["nstates_" + which]
         for lo in range(0, n, 100):
@@ -407,7 +439,12 @@ def check_case(case):
         combos = itertools.islice(itertools.combinations(range(len(cand)), case["size"]), case["lo"], case["hi"])
         todo = [("S", [cand[i] for i in c], "%s:%s" % (case["kind"], ",".join(map(str, c)))) for c in combos]
     for start, prods, label in todo:
-        v, info = check_grammar(start, prods, case.get("L", 6), label)
+        try:
+            with common.watchdog(60):
+                v, info = check_grammar(start, prods, case.get("L", 6), label)
+        except common.CaseTimeout:
+            v, info = [{"key": "parser-does-not-terminate", "msg": "%s: generation or parsing exceeded 60 s of CPU" % label,
+                        "detail": {"start": start, "productions": [[l, list(r)] for l, r in prods]}}], {"states": 0, "parses": 0, "nt": False}
         for x in v:
             x["subcase"] = {"kind": "single", "start": start, "productions": [[l, list(r)] for l, r in prods],
                             "label": label, "L": case.get("L", 6)}
